@@ -132,7 +132,9 @@ def check_list(ctx, tx, A, spec, det):
                 produced_by.setdefault(v, i)
     # cover: every gate (non-input) of the output cones is an internal node of some supergate
     gates = {n for n in cone if A.types[n] != "input"}
-    ctx.side("supergates-cover", gates <= set(produced_by), "supergates:cover", f"gates of the output cones not covered: {sorted(gates - set(produced_by))[:5]}", det)
+    # known finding: on a multi-output circuit with shared logic the merged minimal cover drops a block that is still needed
+    ctx.side("supergates-cover", gates <= set(produced_by), "supergates:multi-output-shared-logic:uncovered-gate" if shared_logic(A) else "supergates:cover",
+             f"gates of the output cones not covered: {sorted(gates - set(produced_by))[:5]}", det)
     # induced wiring: an original gate with <=2 fan-in keeps type and exactly its fan-in
     bad = []
     for i, n in enumerate(nets):
@@ -156,10 +158,10 @@ def check_list(ctx, tx, A, spec, det):
             produced_anywhere = set()
             for n2 in nets:
                 produced_anywhere |= set(n2.nodes()) - n2.inputs()
-            # known finding: in a multi-output circuit with shared logic the minimal cover drops the block of a helper gate of the
-            # fan-in-limited circuit, so a block input is produced by NO returned block (any other order failure is reported)
-            dropped = [i for i in miss if i not in produced_anywhere and i not in A.types]
-            ctx.side("supergates-order", False, "supergates:multi-output-shared-logic:uncovered-helper-gate" if (shared_logic(A) and dropped) else "supergates:not-topological",
+            # known finding: in a multi-output circuit with shared logic the minimal cover drops a block that is still needed, so a
+            # block input is produced by NO returned block (an order failure among blocks that are all present is reported)
+            dropped = [i for i in miss if i not in produced_anywhere]
+            ctx.side("supergates-order", False, "supergates:multi-output-shared-logic:uncovered-gate" if (shared_logic(A) and dropped) else "supergates:not-topological",
                      f"supergate {sorted(n.outputs())} uses {miss[:3]} before any earlier supergate produces it", det)
             break
         fv = S.fn(n, {i: val[i] for i in n.free()})
